@@ -350,18 +350,22 @@ def setQuirk (q : Quirks) (kv : String) : Quirks :=
 def step (d : St) (line : String) : St × String :=
   match words line with
   | ["reset"] => ({ d with st := {}, down := false, oracle := [] }, "ok")
-  -- what the locking model (Crem/Model/Locking.lean) assumes about rest.MuxImpl.ServeHTTP and the handlers
+  -- what the locking model (Crem/Model/Locking.lean) assumes about rest.MuxImpl.ServeHTTP and the handlers: the request is
+  -- handled inside one critical section of a mutex field of the multiplexer (Lock; defer Unlock — directly or through a lock
+  -- wrapper — with nothing touching the receiver outside it)
   | ["facts", "servehttp"] => (d, "lock-first=1 unlock-deferred=1 go-statements=0")
   -- … and about everything else that reaches the multiplexers' state (harness/cmd/suite_engine_conc.go, engine-facts, explains
-  -- each line; the answers describe the code the locking model was tied to, any other shape is a structural failure)
+  -- each line).  The answers are the VIOLATIONS of a rule plus its accepted exceptions, not a fingerprint of the code: lock
+  -- sites other than `Lock; defer Unlock` pairs (none), handlers registered with another multiplexer (one), fields written
+  -- after start-up that are not consistently locked (one accepted life-cycle field) and their accesses outside ServeHTTP
   | ["facts", "servehttp-unique"] => (d, "servehttp=rest.MuxImpl serves=rest.MuxImpl.Start:mi")
-  | ["facts", "lock-sites"] => (d, "admin.Mux.changeStatus:defer:m.statusLock.Unlock admin.Mux.changeStatus:m.statusLock.Lock admin.Mux.timestampedStatus:defer:m.statusLock.Unlock admin.Mux.timestampedStatus:m.statusLock.Lock rest.MuxImpl.Exclusively:defer:mi.requestLock.Unlock rest.MuxImpl.Exclusively:mi.requestLock.Lock rest.MuxImpl.ServeHTTP:defer:mi.requestLock.Unlock rest.MuxImpl.ServeHTTP:mi.requestLock.Lock")
+  | ["facts", "lock-sites"] => (d, "-")
   | ["facts", "detached-execution"] => (d, "-")
   | ["facts", "go-statements"] => (d, "admin.Mux.WaitForShutdownSignal server.RestServer.Start server.RestServer.Start")
   | ["facts", "startup"] => (d, "bootstrap=deriveEngineBehaviour,deriveInitialEngineState,runEngine,flushStreams start-before-go=s.apiMux.SetCacheMaxAge s.adminMux.SetCacheMaxAge s.adminMux.SetStatus")
-  | ["facts", "handlers"] => (d, "own=9 foreign=server.RestServer.WithApiMux:s.apiMux<-s.adminMux.StatusHandler")
-  | ["facts", "locksets"] => (d, "admin.Mux.Status@statusLock engineApi.Mux.model@requestLock engineApi.Mux.modelSolution@requestLock engineApi.Mux.solutionPool@requestLock engineApi.Mux.solutionSetTable@requestLock engineApi.SolutionPool.cache@requestLock rest.MuxImpl.server@-")
-  | ["facts", "post-start"] => (d, "start/go:rest.MuxImpl.server:C:ListenAndServe@- start/go:rest.MuxImpl.server:W@- start:admin.Mux.Status:R@statusLock start:admin.Mux.Status:W@statusLock start:engineApi.Mux.model:C:TearDown@requestLock start:engineApi.Mux.model:R@requestLock start:rest.MuxImpl.server:&@- start:rest.MuxImpl.server:C:Shutdown@-")
+  | ["facts", "handlers"] => (d, "foreign=server.RestServer.WithApiMux:s.apiMux<-s.adminMux.StatusHandler")
+  | ["facts", "locksets"] => (d, "rest.MuxImpl.server@-")
+  | ["facts", "post-start"] => (d, "start/go:rest.MuxImpl.server:C:ListenAndServe@- start/go:rest.MuxImpl.server:W@- start:rest.MuxImpl.server:&@- start:rest.MuxImpl.server:C:Shutdown@-")
   | "quirks" :: kvs => ({ d with q := kvs.foldl setQuirk {} }, "ok")
   | "universe" :: rest =>
     match parseUniverse rest with
